@@ -11,9 +11,17 @@ if TYPE_CHECKING:
 
 class GtfIterator(SequenceIterator):
     """ GTF Iterator """
+    modes = 't'
+
     def __init__(self, source:Union[IO, str], mode='t'):
         """ Constructor """
-        super().__init__(source=source, mode=mode, fmt='GTF')
+        # pylint: disable=unused-argument
+        super().__init__(source=source, fmt='GTF')
+        self.records = self.parse(self.stream)
+
+    def __next__(self) -> GTFSeqFeature:
+        """ Return the next record. """
+        return next(self.records)
 
     def parse(self, handle:IO[str]) -> Iterable[GTFSeqFeature]:
         """ parse
